@@ -1,14 +1,118 @@
 /-
-C04 — evaluator property; theorems over LiquerModel/Eval.lean and LiquerModel/Ref.lean.
+C04 — Cache transparency: a cache never changes what an evaluation returns, for any history.
+Theorems over LiquerModel/Eval.lean and LiquerModel/Ref.lean; helper lemmas in LiquerProofs/Lemmas/Eval*.lean.
+`Sound`, `Closed`, `CanonOK`: see the header of Props/C01.lean.  The world `World` is the KV specification
+of a cache instantiated at evaluator states (that every provided cache refines it is C13).
 -/
 import LiquerModel.Ref
 import LiquerProofs.Inst.Vocab
+import LiquerProofs.Lemmas.EvalExact
+import LiquerProofs.Lemmas.EvalExample
+import LiquerProofs.Lemmas.EvalFrame
 
 namespace Liquer.C04
 
 /-- the regenerated command signature table satisfies the side conditions the evaluator theorems assume -/
 theorem inst_registry : Inst.registryOK Gen.registry = true := Inst.registry_ok
 
+/-- similar outcomes are observationally equal (value or failure, variables, last command, volatility, file
+name, extension) -/
+theorem sim_obs {a b : Outcome} (h : Outcome.sim a b) : a.obs = b.obs := Outcome.sim_obs h
+
+/-- In any sound world the observation of `evaluate(query)` is that of the reference interpretation. -/
+theorem transparent {env : Env} {C : Query → Prop} {T : Str → Prop} (hC : Closed env C T)
+    (hcanon : ∀ q, C q → CanonOK env q) (n : Nat) (w : World) (q : Query) (raw : Str) (extra : Extra)
+    (input : Option Val) (uc : Bool) (hS : Sound env w) (hCq : C q) (huc : uc = true → input = none)
+    (he : (evalQ env n w q raw extra input uc).2 ≠ .unmodelled) :
+    ∃ m, (refQ env m q raw extra input).1 ≠ .unmodelled ∧
+      (evalQ env n w q raw extra input uc).2.obs = (refQ env m q raw extra input).1.obs := by
+  obtain ⟨m, c', _, _, hsim⟩ := (evalQ_refines hC hcanon n w q raw extra input uc hS hCq huc).2 he
+  exact ⟨m, Outcome.sim_ne_unmodelled hsim he, Outcome.sim_obs hsim⟩
+
+/-- Two sound caches — e.g. an empty one and one warmed by any history — give the same observation. -/
+theorem transparent_two_worlds {env : Env} {C : Query → Prop} {T : Str → Prop} (hC : Closed env C T)
+    (hcanon : ∀ q, C q → CanonOK env q) (n n' : Nat) (w w' : World) (q : Query) (raw : Str) (extra : Extra)
+    (input : Option Val) (uc : Bool) (hS : Sound env w) (hS' : Sound env w') (hCq : C q)
+    (huc : uc = true → input = none)
+    (he : (evalQ env n w q raw extra input uc).2 ≠ .unmodelled)
+    (he' : (evalQ env n' w' q raw extra input uc).2 ≠ .unmodelled) :
+    (evalQ env n w q raw extra input uc).2.obs = (evalQ env n' w' q raw extra input uc).2.obs := by
+  obtain ⟨m, hm, h1⟩ := transparent hC hcanon n w q raw extra input uc hS hCq huc he
+  rw [h1, ← evalQ_obs hC hcanon n' m w' q raw extra input uc hS' hCq huc he' hm]
+
+/-- A sound cache against no cache at all (`NoCache()`): same observation. -/
+theorem cache_vs_nocache {env : Env} {C : Query → Prop} {T : Str → Prop} (hC : Closed env C T)
+    (hcanon : ∀ q, C q → CanonOK env q) (n n' : Nat) (w w0 : World) (q : Query) (raw : Str) (extra : Extra)
+    (input : Option Val) (uc : Bool) (hS : Sound env w) (hN : w0.NoCache) (hCq : C q)
+    (huc : uc = true → input = none)
+    (he : (evalQ env n w q raw extra input uc).2 ≠ .unmodelled)
+    (he' : (evalQ env n' w0 q raw extra input uc).2 ≠ .unmodelled) :
+    (evalQ env n w q raw extra input uc).2.obs = (evalQ env n' w0 q raw extra input uc).2.obs := by
+  have hx := ((exact env n').q w0 q raw extra input uc hN).2.1
+  rw [hx] at he' ⊢
+  exact evalQ_obs hC hcanon n n' w q raw extra input uc hS hCq huc he he'
+
+/-! ### histories -/
+
+/-- the empty cache is sound, and so is a cleaned one -/
+theorem empty_sound (env : Env) : Sound env {} := Sound.empty env
+theorem clean_sound (env : Env) (w : World) : Sound env { w with cache := [] } := Sound.clean w
+theorem remove_sound {env : Env} {w : World} (h : Sound env w) (k : Str) : Sound env (w.remove k) := h.remove k
+theorem nocache_sound {env : Env} {w : World} (h : w.NoCache) : Sound env w := Sound.of_NoData h.2
+
+/-- `Sound` is an invariant of every history of plain evaluations, evaluations of texts, evaluations with an
+injected input value (`evaluate_on`: `NoCache` for the chain of predecessors), evaluations with extra parameters,
+removals and cleans — any length, any fuel per step, any as-typed spelling. -/
+theorem histories {env : Env} {C : Query → Prop} {T : Str → Prop} (hC : Closed env C T)
+    (hcanon : ∀ q, C q → CanonOK env q) (fuel : Nat) (h : List HistOp) (w : World) (hS : Sound env w)
+    (hok : ∀ op ∈ h, op.ok C T) : Sound env (runHist env fuel w h) :=
+  runHist_sound hC hcanon fuel h w hS hok
+
+/-- … hence after any history the observation of an evaluation is that of the reference interpretation -/
+theorem transparent_after_history {env : Env} {C : Query → Prop} {T : Str → Prop} (hC : Closed env C T)
+    (hcanon : ∀ q, C q → CanonOK env q) (fuel n m : Nat) (h : List HistOp) (hok : ∀ op ∈ h, op.ok C T)
+    (q : Query) (raw : Str) (hCq : C q)
+    (he : (evalQ env n (runHist env fuel {} h) q raw .none none true).2 ≠ .unmodelled)
+    (hr : (refQ env m q raw .none none).1 ≠ .unmodelled) :
+    (evalQ env n (runHist env fuel {} h) q raw .none none true).2.obs = (refQ env m q raw .none none).1.obs :=
+  evalQ_obs hC hcanon n m _ q raw .none none true (histories hC hcanon fuel h {} (Sound.empty env) hok) hCq
+    (fun _ => rfl) he hr
+
+/-! ### frame: what an evaluation never touches -/
+
+/-- an evaluation never changes the flags of the cache (`enabled`, `metaKeepsData`) and only appends to the call log -/
+theorem frame_evalQ (env : Env) (n : Nat) (w : World) (q : Query) (raw : Str) (extra : Extra) (input : Option Val)
+    (uc : Bool) :
+    (evalQ env n w q raw extra input uc).1.enabled = w.enabled ∧
+    (evalQ env n w q raw extra input uc).1.metaKeepsData = w.metaKeepsData ∧
+    ∃ c, (evalQ env n w q raw extra input uc).1.calls = w.calls ++ c :=
+  (frame env n).q w q raw extra input uc
+
+-- non-vacuity: the hypotheses hold for the example family; a history with a plain evaluation, an evaluation with an
+-- injected input, one with extra parameters, a removal of a prefix key and a clean satisfies `ok`; and the
+-- conclusion is exercised: `one/add-2` evaluated in the world warmed by `one/add-~X~/one~E` returns 3, as the
+-- reference interpretation does, executing `add` only.
+open Ex in
+def hist0 : List HistOp :=
+  [.eval qLink (s "one/add-~X~/one~E"), .evalOn qOneAdd (s "one/add-2") (some (.int 5)),
+   .evalExtra qOneAdd (s "one/add-2") (.list [.int 7]), .remove (s "one"), .eval qOneAdd (s "one/add-2"), .clean,
+   .eval qOne (s "one")]
+open Ex in
+example : Closed env0 C0 T0 ∧ (∀ q, C0 q → CanonOK env0 q) ∧ (∀ op ∈ hist0, op.ok C0 T0) ∧
+    Sound env0 (runHist env0 9 {} hist0) := by
+  have hok : ∀ op ∈ hist0, op.ok C0 T0 := by
+    intro op hm
+    simp only [hist0, List.mem_cons, List.not_mem_nil, or_false] at hm
+    rcases hm with rfl | rfl | rfl | rfl | rfl | rfl | rfl <;> simp [HistOp.ok, C0]
+  exact ⟨closed0, canon0, hok, histories closed0 canon0 9 hist0 {} (Sound.empty _) hok⟩
+open Ex in
+example :
+    let w1 := (evalQ env0 9 {} qLink (s "one/add-~X~/one~E") .none none true).1
+    (evalQ env0 9 w1 qOneAdd (s "one/add-2") .none none true).2.obs.map (·.value) = some (some (.int 3)) ∧
+    (refQ env0 9 qOneAdd (s "one/add-2") .none none).1.obs.map (·.value) = some (some (.int 3)) ∧
+    w1.get (s "one") ≠ none := by
+  decide +kernel
+
 end Liquer.C04
 
--- OBLIGATIONS: Liquer.C04.inst_registry
+-- OBLIGATIONS: Liquer.C04.inst_registry Liquer.C04.sim_obs Liquer.C04.transparent Liquer.C04.transparent_two_worlds Liquer.C04.cache_vs_nocache Liquer.C04.empty_sound Liquer.C04.clean_sound Liquer.C04.remove_sound Liquer.C04.nocache_sound Liquer.C04.histories Liquer.C04.transparent_after_history Liquer.C04.frame_evalQ
